@@ -322,7 +322,7 @@ def _apply_unitary_strat(
 
     # cast is ok, is_density_matrix being false tells us right_axes isn't None.
     right_args = ApplyUnitaryArgs(
-        target_tensor=np.conjugate(left_result),
+        target_tensor=np.asarray(np.conjugate(left_result)),
         available_buffer=args.auxiliary_buffer0,
         axes=cast(tuple[int], args.right_axes),
     )
